@@ -101,6 +101,9 @@ class Builder:
             return complex(float(t[1]), float(t[2]))
         if k == "fr":
             return Fraction(int(t[1]), int(t[2]))
+        if k == "nstr":
+            import numpy as np
+            return np.str_(t[1])     # a str subclass instance (names taken from a numpy array)
         if k == "s":
             # not interned on purpose: equal-but-not-identical strings are part of the game
             return "".join(list(t[1]))
@@ -226,6 +229,8 @@ class TermGen:
             return ["b", bool(v)]
         if kind == "npi":
             return ["np", "int64", repr(int(v))]
+        if kind == "npb":
+            return ["np", "bool_", repr(bool(v))]
         if kind == "npf":
             if r.random() < 0.15:
                 return ["np", "float64", r.choice(["0.0", "-0.0"])]     # signed zeros
